@@ -3,7 +3,7 @@ ENGINES = [
      'kind_free_text': 'sharded exhaustive enumeration of a finite input/configuration space of the real code against a reference model'},
     {'name': 'E3-dev', 'path': 'mc/checks/c17.py', 'serves_properties': ['C13', 'C17'],
      'kind_free_text': 'deviation-bounded / fault-point enumeration: the harness owns every environment answer (truncation point, corrupted byte, failing write, clock, consumer delay) and enumerates all runs up to a deviation bound'},
-    {'name': 'E2-bfs', 'path': 'mc/engine_bfs.py', 'serves_properties': ['C03', 'C04', 'C05', 'C15', 'C16'],
+    {'name': 'E2-bfs', 'path': 'mc/engine_bfs.py', 'serves_properties': ['C03', 'C04', 'C05', 'C11', 'C15', 'C16'],
      'kind_free_text': 'explicit-state breadth-first search over live implementation objects (state = replayable operation history, canonicalised from the complete vars() of the objects), level-parallel'},
 ]
 NOTES = 'All checks are bounded exhaustive explorations of the real mido code (imported from the /repo working tree) against independent reference models; see DESIGN.md.'
@@ -106,3 +106,9 @@ CHECKS['C20'] = dict(
     technique='complete enumeration of the finite configuration grid with recording fake backend modules on sys.path against a pure reference function',
     text='All 26 112 configurations of (backend given as argument / MIDO_BACKEND, with or without an API suffix or keyword, a competing MIDO_BACKEND) x use_environ x each default-port variable set/unset x port name given/absent x explicit api in the call x module with/without native IOPort and get_devices x load x six operations, plus set_backend rebinding, are executed against fake backend modules that record imports, constructor calls and device queries; a pure reference function written from docs/backends states the expected import moment, names, api injection, name lists and wrapper fallback.',
     note='Empty-string environment values and api given twice are outside the grid (undefined by the docs); the wrapper fallback may pass extra keywords.')
+
+CHECKS['C11'] = dict(
+    engine='E2-bfs', category='model_checking', design_ref='DESIGN.md 5/C11',
+    technique='breadth-first search over operation histories on 13 live port kinds with the sleep seam as an environment choice point (message arrives / device hangs up / nothing, with a horizon), against a life-cycle reference automaton',
+    text='Every history up to depth 5 (7 thorough) of device events, send, poll, non-blocking and blocking receive, iteration, iter_pending, close / with-exit / __del__ and injected device write failures is executed on device doubles (direct and parser style, autoreset, self-closing), EchoPort, the IOPort wrapper and MultiPort. Inside blocking calls each call of ports.sleep is answered from an environment script. The reference automaton tracks per-source FIFO of delivered/taken-in/returned messages, the closed flag, the release counter (exactly one _close) and the 32 reset messages; a blocking call that sleeps while a message is deliverable, a non-blocking call that sleeps, an iteration that raises, a double release are violations.',
+    note='Devices are doubles at the documented extension seam; real backends out of reach. Known finding: IOPort wrapper unaware of a self-closed input.')
